@@ -371,6 +371,25 @@ impl Sched {
         self.point_of(None, class, ev, d)
     }
 
+    /// a harness-side point that belongs to the given store, whatever thread it is on
+    pub fn point_st(&self, st: &str, class: Class, ev: &str, d: Value) -> String {
+        let tid = std::thread::current().id();
+        let mut g = self.inner.lock().unwrap();
+        if g.mode == Mode::Off {
+            return String::new();
+        }
+        let role = match g.roles.get(&tid) {
+            Some(r) => r.clone(),
+            None => {
+                g.unknown += 1;
+                let r = format!("?{}", g.unknown);
+                g.roles.insert(tid, r.clone());
+                r
+            }
+        };
+        self.emit_locked(g, role, class, ev, d, st.to_string())
+    }
+
     /// like `point`, for an object created in run `epoch`: ignored when that run is over
     pub fn point_of(&self, epoch: Option<u64>, class: Class, ev: &str, d: Value) -> String {
         let tid = std::thread::current().id();
